@@ -784,3 +784,32 @@ Check C10_zero_sfl_cell_witness_in_range :
   /\ K_zero_sfl_cell wit6 = true
   /\ Forall (rowQ no_reg 0) wit6 /\ forallb valid_tx wit6 = true.
 Print Assumptions C10_zero_sfl_cell_witness_in_range.
+
+(* ------------------------------------------------------------------ (13) the rows of make_annual_gains_summary_txs
+   for an affiliate that is not registered: the base purchase (abuy_tx) of
+   (shares + number of gain years) at the per-share cost on 1 January of the
+   year before the first, and one sale (asell_tx) per gain year, with the gain
+   as price premium or the loss as commission - the rows that
+   C10_annual_rebuild is about. *)
+Theorem C10_annual_summary_rows : forall af fy ds d ys0 c,
+  af_reg af = false -> yearly_gains exact af ds [] = Ok ys0 ->
+  s_acb (d_post d) = Some c -> (0 <= c)%Qc -> (0 <= s_sh (d_post d))%Qc ->
+  let ys := sort_years ys0 in
+  let aps := if Qcltb 0 (s_sh (d_post d)) then (c / s_sh (d_post d))%Qc else 0%Qc in
+  let h := {| ah_af := af; ah_sh := s_sh (d_post d); ah_aps := Some aps;
+              ah_n := (s_sh (d_post d) + qn (length ys))%Qc |} in
+  annual_summary exact af fy ds d
+  = Ok ((if Qcltb 0 (ah_n h) then [abuy_tx (d_tx d) (jan1 (fy - 1)) h] else [])
+        ++ map (fun yg => asell_tx (d_tx d) (ysell af aps yg)) ys).
+Proof. exact annual_summary_rows. Qed.
+Check C10_annual_summary_rows : forall af fy ds d ys0 c,
+  af_reg af = false -> yearly_gains exact af ds [] = Ok ys0 ->
+  s_acb (d_post d) = Some c -> (0 <= c)%Qc -> (0 <= s_sh (d_post d))%Qc ->
+  let ys := sort_years ys0 in
+  let aps := if Qcltb 0 (s_sh (d_post d)) then (c / s_sh (d_post d))%Qc else 0%Qc in
+  let h := {| ah_af := af; ah_sh := s_sh (d_post d); ah_aps := Some aps;
+              ah_n := (s_sh (d_post d) + qn (length ys))%Qc |} in
+  annual_summary exact af fy ds d
+  = Ok ((if Qcltb 0 (ah_n h) then [abuy_tx (d_tx d) (jan1 (fy - 1)) h] else [])
+        ++ map (fun yg => asell_tx (d_tx d) (ysell af aps yg)) ys).
+Print Assumptions C10_annual_summary_rows.
